@@ -294,6 +294,8 @@ pub fn run_once(p: &CrashParams, hist: &[usize]) -> StepReport {
     }
     let mut failed: Option<String> = None;
     let mut ckpt_taint = false;
+    // (ack event of op i, checkpoint-time writers still undecided after op i)
+    let mut op_acks: Vec<(usize, usize)> = vec![];
     for (i, op) in all_ops.iter().enumerate() {
         let last = i + 1 == all_ops.len();
         if !enabled(&ex.model, op) {
@@ -330,6 +332,7 @@ pub fn run_once(p: &CrashParams, hist: &[usize]) -> StepReport {
         if after != before {
             acks.push(Ack { start_ev, ack_ev, state: after });
         }
+        op_acks.push((ack_ev, ex.model.undecided_ckpt_writers()));
     }
     if let Some(d) = failed {
         // a live (pre-crash) divergence from the model is not this engine's business: the seq-based
@@ -408,6 +411,17 @@ pub fn run_once(p: &CrashParams, hist: &[usize]) -> StepReport {
             points.push(i + 1);
         }
     }
+    // the instant right after the last operation was acknowledged is a crash point of its own even when the operation
+    // wrote nothing (an acknowledgement that should have forced something and did not has no event to hang a point on)
+    if !hist.is_empty() {
+        let label = format!("ack:{}", all_ops.len() - 1);
+        if let Some(k) = events.iter().position(|e| matches!(e, IoEvent::Mark { label: l } if *l == label)) {
+            if !points.contains(&(k + 1)) {
+                points.push(k + 1);
+                points.sort();
+            }
+        }
+    }
     let mut n_points = 0u64;
     let mut n_opens = 0u64;
     let mut n_nested = 0u64;
@@ -433,6 +447,18 @@ pub fn run_once(p: &CrashParams, hist: &[usize]) -> StepReport {
         }
         // triggers (known findings about where the crash falls)
         let mut active_triggers: Vec<String> = vec![];
+        // listed finding: a checkpoint ran while a transaction with writes was open. It concerns crashes at which such a
+        // writer is still undecided: before the acknowledgement of the operation that ended the last of them.
+        {
+            let n = op_acks.len();
+            let und_after_last = op_acks.last().map(|x| x.1).unwrap_or(0);
+            let und_before_last = if n >= 2 { op_acks[n - 2].1 } else { 0 };
+            let last_ack = op_acks.last().map(|x| x.0).unwrap_or(0);
+            let zone = if pt <= last_ack { und_before_last > 0 || und_after_last > 0 } else { und_after_last > 0 };
+            if zone && sp.hazards.iter().any(|h| h == KF_CHECKPOINT_OPEN_WRITER) {
+                active_triggers.push(KF_CHECKPOINT_OPEN_WRITER.to_string());
+            }
+        }
         for (name, lo, hi) in &windows {
             if pt > *lo && pt <= *hi && trig.contains(name) {
                 active_triggers.push(name.clone());
